@@ -244,6 +244,61 @@ def gen_long(rnd, tier):
     return out
 
 
+def count_sweep(ctx, exe):
+    """Long COUNTS (round-4 class 1): a block B that ends with a free delimiter, repeated K times, so that the number of tokens /
+    words is n-1, n, n+1 around 2^8 and 2^16 (the 16-bit counter threshold).  The real function gets B^K; TLC scans B alone and the
+    law RepeatLaw / WordsRepeatLaw of Quote.tla (checked on the bounded universe) gives the expectation.  Returns (events, index)."""
+    from vlib.replay import ASAN_OPTS
+    quoted = [97, 32, DQ, 98, 32, 99, DQ, 32]            # a "b c"   (2 tokens / 2 words / 3 white-space words per block)
+    plan = []
+    for k in (255, 256, 257):
+        plan += [("split_rep", [], quoted, k), ("tok_rep", [], quoted, k), ("split_rep", [58], [97, 58, SQ, 58, SQ, 58], k)]
+    for j, k in enumerate((65535, 65536, 65537)):
+        plan += [("split_rep", [] if j % 2 == 0 else [58], [97, 32] if j % 2 == 0 else [97, 58], k),
+                 ("tok_rep", [58] if j % 2 == 0 else [], [97, 58] if j % 2 == 0 else [97, 32], k)]
+    if ctx.tier != "quick":
+        for k in (32767, 32768, 32769, 33000):
+            plan += [("split_rep", [], quoted, k), ("tok_rep", [58, 32], quoted, k)]
+        plan += [("split_rep", [], [97, 32], 131073), ("tok_rep", [], [97, 32], 131073)]
+    cases = []
+    for n, (op, d, b, k) in enumerate(plan):
+        cases.append(x_c12.Case(n + 1, [(op, [tok(d) if d else "-", tok(b), str(k)], "?", None)],
+                                {"d": d, "s": b, "k": k, "family": "count-sweep", "tokens": k * (2 if b == quoted else 1), "env": {"VH_WATCHDOG": "600"}}))
+    widx = [1, 2, 3, 255, 256, 257, 65535, 65536]
+    for k in (128, 32768) + ((65536,) if ctx.tier != "quick" else ()):
+        cases.append(x_c12.Case(len(cases) + 1, [("words_rep", [tok(quoted), str(k), tok([i for i in widx if i <= 2 * k])], "?", None)],
+                                {"d": [], "s": quoted, "k": k, "family": "count-sweep", "tokens": 2 * k, "idx": [i for i in widx if i <= 2 * k], "env": {"VH_WATCHDOG": "600"}}))
+    env = dict(ENV)
+    lv = [int(x) for x in ENV.get("VH_LEVELS", "0").split(",")]
+    if ctx.tier == "quick":
+        lv = lv[:2]             # each of these calls takes seconds under ASan: level 0 and the first further level in quick, all in thorough
+    env.update({"VH_LEVELS": ",".join(map(str, lv)), "VH_WATCHDOG": "600", "ASAN_OPTIONS": ASAN_OPTS + ":quarantine_size_mb=4"})
+    got = {}
+
+    def ckey(c, at, f):
+        return "long-input[count-sweep] %s d=%s tokens%s %s" % (c.steps[at][0], dclass(c.meta["d"]),
+                                                                 ">=65536" if c.meta["tokens"] >= 65536 else "<65536", x_c12.fail_class(f))
+    x_c12.run_cases(ctx, exe, [], cases, ckey, "count_sweep", env=env, recorder=lambda c, at, ret: got.__setitem__(c.sid, untok(ret)))
+    events, index = [], []
+    for c in cases:
+        if c.sid not in got:
+            continue
+        op = c.steps[0][0]
+        ret = got[c.sid]
+        if op == "words_rep" and any(w is None for w in ret.get("w", [])):
+            ctx.report("long-input[count-sweep] words_rep ret/null-word", "get_word(i) returned NULL for an i <= num_words of a repeated block",
+                       {"harness_args": [], "script_text": c.text(), "recorded": ret, "env": env})
+            continue
+        e = {"op": op, "d": c.meta["d"], "s": c.meta["s"], "k": c.meta["k"], "ret": ret}
+        if op == "words_rep":
+            e["idx"] = c.meta["idx"]
+        events.append(e)
+        index.append((c, 0, "count-sweep"))
+    ctx.cov["count_sweep"] = {"cases": len(cases), "max_tokens": max(c.meta["tokens"] for c in cases), "debug_levels": lv,
+                              "counts": sorted({c.meta["tokens"] for c in cases})}
+    return events, index
+
+
 def long_inputs(ctx, exe):
     rnd = random.Random(ctx.seed)
     inputs = gen_long(rnd, ctx.tier)
@@ -296,6 +351,9 @@ def long_inputs(ctx, exe):
         if c.sid in jgot and all(isinstance(x, list) for x in jgot[c.sid]):
             events.append({"op": "join", "d": [], "s": [], "toks": c.meta["toks"], "ret": jgot[c.sid]})
             index.append((c, 0, c.meta["family"]))
+    ce, ci = count_sweep(ctx, exe)
+    events += ce
+    index += ci
     if not events:
         raise Broken("no long input could be recorded")
     byfam = {}
@@ -312,15 +370,17 @@ def long_inputs(ctx, exe):
         wall += res.wall
         if ok:
             accepted += len(events)
-            first_ok = events[0]
+            first_ok = next((e for e in events if e["op"] in ("split", "tok")), None)
             break
         accepted += pos
         c, at, fam = index[pos]
         e = events[pos]
-        ctx.report("long-input[%s] trace-rejected %s d=%s" % (fam, e["op"], dclass(e["d"]) if e["op"] != "join" else "-"),
+        ctx.report("long-input[%s] trace-rejected %s d=%s%s" % (fam, e["op"], dclass(e["d"]) if e["op"] != "join" else "-",
+                                                                  "" if fam != "count-sweep" else (" tokens>=65536" if c.meta["tokens"] >= 65536 else " tokens<65536")),
                    "TLC rejects the recorded result of %s on a %d-character input with %d delimiter characters: the reference of Quote.tla yields a different result"
                    % (e["op"], len(e["s"]), len(e["d"])),
-                   {"harness_args": [], "script_text": x_c12.Case(1, [(c.steps[at][0], c.steps[at][1], "?", None)]).text(), "event": e})
+                   {"harness_args": [], "script_text": x_c12.Case(1, [(c.steps[at][0], c.steps[at][1], "?", None)]).text(),
+                    "event": e if len(json.dumps(e)) < 20000 else "(long)", "env": c.meta.get("env", {})})
         events = events[pos + 1:]
         index = index[pos + 1:]
         if not events:
